@@ -350,12 +350,17 @@ class Agent(dbus.service.Object):
                 # re-encode the block data from the updated payload
                 blk.delfieldval('btsd')
 
-            for blk in list(ctr.block_type(7)):
-                ctr.remove_block(blk)
+            age_blks = list(ctr.block_type(7))
             create_dtntime = ctr.bundle.primary.create_ts.getfieldval('dtntime')
+            if create_dtntime == 0:
+                # the received age is all that is known about the bundle
+                age_blks = age_blks[1:]
+            for blk in age_blks:
+                ctr.remove_block(blk)
             if create_dtntime != 0:
                 now_dtntime = self.timestamp().getfieldval('dtntime')
-                age = now_dtntime - create_dtntime
+                # a creation time ahead of the local clock is no negative age
+                age = max(0, now_dtntime - create_dtntime)
                 ctr.add_block(CanonicalBlock() / BundleAgeBlock(age=age))
 
             self.send_bundle(ctr)
